@@ -147,6 +147,22 @@ def validation_set(rng, est, X, style):
     P = X[rng.randint(0, n, size=(m, 2))]
     z = rng.rand(m) < 0.4
     P[z, 1] = P[z, 0]
+  elif style == 'ulp':
+    # distances that are neighbouring doubles, similar pairs just below
+    # dissimilar ones: the optimal cut-off separates two adjacent numbers
+    u = rng.randn(d)
+    t = 10.0 ** rng.uniform(-2, 2)
+    m = 12
+    P = np.zeros((m, 2, d))
+    for k_ in range(8):
+      P[k_, 1] = (t * (1.0 + k_ * 2.0 ** -52)) * u
+    P[8:10, 1] = 0.25 * t * u[None] * rng.uniform(0.5, 1.0, size=(2, 1))
+    P[10:, 1] = 4.0 * t * u[None] * rng.uniform(1.0, 2.0, size=(2, 1))
+    y = np.array([1, 1, 1, 1, -1, -1, -1, -1, 1, 1, -1, -1])
+    cut = int(rng.randint(2, 7))
+    y[:8] = np.where(np.arange(8) < cut, 1, -1)
+    perm = rng.permutation(m)
+    return P[perm], y[perm]
   elif style == 'lattice':
     L = est.components_
     if L.shape[0] == L.shape[1] and np.linalg.cond(L) < 1e8:
@@ -175,7 +191,7 @@ def run_case(spec, j):
   api.set_judge(j)
   rng = rng_for('c16run', spec['vseed'])
   det0 = {'est': name}
-  styles = ['pool', 'dup', 'zero', 'lattice', 'random']
+  styles = ['pool', 'dup', 'zero', 'lattice', 'random', 'ulp']
   for s in range(spec['nsets']):
     style = styles[s % len(styles)]
     P, y = validation_set(rng, est, X, style)
